@@ -464,7 +464,7 @@ CHECKS["C16"] = {
             "cond wait/signal/broadcast of the runtime and of libstdc++ is a scheduling point; a timed wait expires only by an explicit scheduler "
             "choice that advances the virtual clock; a spurious wake-up of any condition waiter is a further deviation (cost 1). Configurations: policy {queue, burst, conflating} x capacity {1, 2, unbounded} x 9 producer "
             "scripts (1-2 producers, 1-4 sends) x {stopper, none}; plus a conflating TSD<Int,TS<Int>> source with 6 scripts mixing key writes and "
-            "no-op removals of absent keys (every accepted key write must appear in the merged state). Each complete execution is checked: no value twice; nothing delivered that was "
+            "no-op removals of absent keys (every accepted key write must appear in the merged state); and 5 scripts over a graph with TWO queue push sources (a backlog on one must survive the other's turn in the push phase). Each complete execution is checked: no value twice; nothing delivered that was "
             "refused or never sent; one value per cycle (burst: one tuple) at strictly increasing times; delivery order respects per-producer order "
             "and returned-before-called order, and is a prefix of it; pending_items <= capacity at every cycle boundary and after every send; a "
             "try_send refusal only if the queue can have been full or stop had begun; send_blocking fails only after stop began; nothing accepted "
